@@ -307,9 +307,11 @@ func (g *gen) genString(typs []types.Type) error {
 	p.P("func %s(f func(rune) %s, ss string) []%s {", name, outStr, outStr)
 	p.In()
 	p.P("out := make([]%s, len([]rune(ss)))", outStr)
-	p.P("for i, elem := range ss {")
+	p.P("i := 0")
+	p.P("for _, elem := range ss {")
 	p.In()
 	p.P("out[i] = f(elem)")
+	p.P("i++")
 	p.Out()
 	p.P("}")
 	p.P("return out")
